@@ -31,7 +31,7 @@ for o in res["obligations"]:
             slow.append((o["name"], "unstable"))
             continue
         tmax = max(tmax, max(s["result"]["time_s"] for s in o2["sites"]))
-        if tmax > 2.0:
+        if tmax > 8.0:  # (a claimed obligation that times out at check time is retried with 60 s before anything is reported)
             slow.append((o["name"], tmax))
             continue
         if any(o["name"].endswith(e) or e in o["name"] for e in excl):
@@ -47,6 +47,12 @@ else:
     with open(f"{V}/claims/{pid}.txt", "w") as f:
         f.write("# claimed obligations of %s: each must be generated from the current tree and discharged on every run\n" % pid)
         f.write("\n".join(sorted(claims)) + "\n")
+if "--show" not in sys.argv:
+    # the universe: every obligation name generated today (claimed or not). At check time an obligation outside it is NEW
+    # code (a new panic site, heap write, call site, inlined helper) and must discharge, see bin/check.
+    with open(f"{V}/claims/{pid}.universe.txt", "w") as f:
+        f.write("# every obligation generated for %s when its claimed set was recorded\n" % pid)
+        f.write("\n".join(sorted({o["name"] for o in res["obligations"]} | {o["name"] for o in res2["obligations"]})) + "\n")
 print("claimed", len(claims), "slow (not claimed):", slow)
 for f in res["funcs"]:
     if f.get("error") or f["vacuity"] == "requires-unsat" or f.get("canary") == "all-returns-unreachable":
